@@ -495,4 +495,744 @@ Section WithEnv.
         destruct (unknowns_add_keep (f_tag g) (f_arg g, k) (st_unknowns st) (f_tag f) l (a, i) H1 H2) as (l' & H3 & H4).
         exists l', a. split; assumption.
   Qed.
+
+  (* ---- the whole field list ------------------------------------------------------------------------------ *)
+  Lemma handle_all_app : forall a b k st,
+    handle_all E k (a ++ b) st = handle_all E (k + List.length a) b (handle_all E k a st).
+  Proof.
+    induction a as [|x a IH]; intros b k st; cbn [app handle_all List.length].
+    - rewrite Nat.add_0_r. reflexivity.
+    - rewrite IH. f_equal. lia.
+  Qed.
+
+  Lemma handle_all_reported : forall fs k st i,
+    reported_at i (st_reports st) -> reported_at i (st_reports (handle_all E k fs st)).
+  Proof.
+    induction fs as [|g fs IH]; intros k st i H; cbn [handle_all]; [exact H|].
+    apply IH. apply reported_mono. exact H.
+  Qed.
+
+  Lemma handle_all_placed : forall fs k st i f,
+    is_function_obj E = true -> (forall g, In g fs -> compat f g) -> placed i f st ->
+    placed i f (handle_all E k fs st).
+  Proof.
+    induction fs as [|g fs IH]; intros k st i f Hfun Hc Hp; cbn [handle_all]; [exact Hp|].
+    apply IH; [exact Hfun | intros g' Hg'; apply Hc; right; exact Hg' |].
+    apply placed_preserved; [exact Hfun | apply Hc; left; reflexivity | exact Hp].
+  Qed.
+
+  Lemma handle_all_total : forall fs k st i,
+    total i (handle_all E k fs st) <= total i st + (if (k <=? i) && (i <? k + List.length fs) then 1 else 0).
+  Proof.
+    induction fs as [|g fs IH]; intros k st i; cbn [handle_all List.length].
+    - lia.
+    - specialize (IH (S k) (handle E k g st) i). pose proof (handle_total_le k g st i) as H.
+      destruct (Nat.eqb_spec i k) as [->|Hne].
+      + replace ((S k <=? k) && (k <? S k + List.length fs)) with false in IH
+          by (symmetry; apply andb_false_iff; left; apply Nat.leb_gt; lia).
+        replace ((k <=? k) && (k <? k + S (List.length fs))) with true
+          by (symmetry; apply andb_true_iff; split; [apply Nat.leb_le | apply Nat.ltb_lt]; lia).
+        lia.
+      + replace ((k <=? i) && (i <? k + S (List.length fs))) with ((S k <=? i) && (i <? S k + List.length fs)).
+        * lia.
+        * destruct (S k <=? i) eqn:A; destruct (k <=? i) eqn:B; cbn [andb]; try reflexivity.
+          -- f_equal. lia.
+          -- apply Nat.leb_le in A. apply Nat.leb_gt in B. lia.
+          -- apply Nat.leb_gt in A. apply Nat.leb_le in B. assert (i = k) by lia. contradiction.
+  Qed.
+
+  Lemma total_init : forall i, total i (init_state E) = 0.
+  Proof.
+    intros i. unfold init_state. occ_unfold.
+    assert (H : types_occ i (match e_obj E with
+                             | OFunction _ => map (fun p : pname * bool => (fst p, if snd p then Some (TyAnn (pn_text (fst p)), FromAst) else None)) (e_sig E)
+                             | _ => [] end) = 0).
+    { destruct (e_obj E); try reflexivity. unfold types_occ. rewrite map_map.
+      induction (e_sig E) as [|[p b] l IH]; [reflexivity|]. cbn [map]. rewrite list_sum_cons, IH.
+      unfold ty_occ. cbn [fst snd]. destruct b; reflexivity. }
+    rewrite H. destruct (e_obj E); try reflexivity. destruct (N.eqb (e_ret E) 2); reflexivity.
+  Qed.
+
+  Lemma final_total_le_1 : forall fs i, total i (handle_all E 0 fs (init_state E)) <= 1.
+  Proof.
+    intros fs i. pose proof (handle_all_total fs 0 (init_state E) i) as H. rewrite total_init in H.
+    destruct ((0 <=? i) && (i <? 0 + List.length fs)); lia.
+  Qed.
+
+  (* from the guard of the theorem to `compat` *)
+  Lemma guard_compat : forall fs pre f post,
+    fs = pre ++ f :: post -> silently_lost E fs (List.length pre) f = false ->
+    (forall g, In g post -> compat f g) /\ is_var_tag (f_tag f) = false.
+  Proof.
+    intros fs pre f post Hfs Hg. unfold silently_lost in Hg.
+    assert (Hl : skipn (S (List.length pre)) fs = post).
+    { subst fs. replace (S (List.length pre)) with (List.length (pre ++ [f])) by (rewrite app_length; cbn; lia).
+      replace (pre ++ f :: post) with ((pre ++ [f]) ++ post) by (rewrite <- app_assoc; reflexivity).
+      rewrite skipn_app, skipn_all, Nat.sub_diag. reflexivity. }
+    rewrite Hl in Hg.
+    repeat (apply orb_false_iff in Hg; destruct Hg as [Hg ?]).
+    split; [|assumption].
+    intros g Hin. unfold compat. repeat split.
+    - intros s Hs Hs'. rewrite Hs in Hg.
+      rewrite <- not_true_iff_false in Hg. apply Hg. apply existsb_exists. exists g. split; [exact Hin|].
+      rewrite Hs'. destruct s; reflexivity.
+    - intros Tf Tg Sn. match goal with H : is_tag ["type"%string] f && existsb _ post = false |- _ => rename H into Hb end.
+      rewrite Tf in Hb. cbn [andb] in Hb. rewrite <- not_true_iff_false in Hb. apply Hb.
+      apply existsb_exists. exists g. split; [exact Hin|]. rewrite Tg, Sn. reflexivity.
+    - intros Tf Tg Sn. match goal with H : is_tag param_tags f && existsb _ post = false |- _ => rename H into Hb end.
+      rewrite Tf in Hb. cbn [andb] in Hb. rewrite <- not_true_iff_false in Hb. apply Hb.
+      apply existsb_exists. exists g. split; [exact Hin|]. rewrite Tg, Sn. reflexivity.
+  Qed.
+
+  Lemma not_elsewhere : forall f, is_var_tag (f_tag f) = false -> lookup_handler (f_tag f) handler_table <> Some HElsewhere.
+  Proof.
+    intros f Hv Hh. destruct (known_handler_facts _ _ Hh) as (_ & _ & _ & _ & Fv). rewrite Fv in Hv. discriminate.
+  Qed.
+
+  (* the state after all the fields: field i is where `placed` says, or was reported; no index occurs twice *)
+  Theorem handled_placed : forall fs pre f post,
+    is_function_obj E = true -> fs = pre ++ f :: post -> silently_lost E fs (List.length pre) f = false ->
+    let st := handle_all E 0 fs (init_state E) in
+    placed (List.length pre) f st \/ reported_at (List.length pre) (st_reports st).
+  Proof.
+    intros fs pre f post Hfun Hfs Hg st.
+    destruct (guard_compat fs pre f post Hfs Hg) as [Hc Hv].
+    subst st. rewrite Hfs. rewrite handle_all_app. cbn [handle_all plus].
+    destruct (handle_places (List.length pre) f (handle_all E 0 pre (init_state E)) Hfun (not_elsewhere f Hv)) as [Hp | Hr].
+    - left. apply handle_all_placed; assumption.
+    - right. apply handle_all_reported. exact Hr.
+  Qed.
 End WithEnv.
+
+(* ======================================================================================================== *)
+(* resolve_types                                                                                              *)
+(* ======================================================================================================== *)
+Definition values {K V} (d : list (K * V)) : list V := map snd d.
+
+Lemma pdesc_eqb_occ : forall i a b, pdesc_eqb a b = true -> pd_occ i a = pd_occ i b /\ pdesc_documented a = pdesc_documented b
+                                                         /\ pd_body a = pd_body b /\ pd_origin a = pd_origin b /\ type_occ i (pd_type a) = type_occ i (pd_type b).
+Proof.
+  intros i a b H. unfold pdesc_eqb in H.
+  repeat (apply andb_true_iff in H; destruct H as [H ?]).
+  assert (Hb : pd_body a = pd_body b).
+  { destruct (pd_body a), (pd_body b); cbn in *; try discriminate; try reflexivity.
+    f_equal. apply Nat.eqb_eq. assumption. }
+  assert (Ho : pd_origin a = pd_origin b).
+  { destruct (pd_origin a) as [[]|], (pd_origin b) as [[]|]; cbn in *; try discriminate; reflexivity. }
+  assert (Ht : type_occ i (pd_type a) = type_occ i (pd_type b)).
+  { destruct (pd_type a) as [[]|], (pd_type b) as [[]|]; cbn in *; try discriminate; try reflexivity.
+    match goal with Hx : Nat.eqb _ _ = true |- _ => apply Nat.eqb_eq in Hx; subst end. reflexivity. }
+  unfold pd_occ, pdesc_documented. rewrite Hb, Ho, Ht. repeat split; reflexivity.
+Qed.
+
+Lemma tyref_eqb_refl : forall t, tyref_eqb t t = true.
+Proof. intros []; cbn; try apply text_eqb_refl; try apply Nat.eqb_refl; reflexivity. Qed.
+
+Lemma pdesc_eqb_refl : forall p, pdesc_eqb p p = true.
+Proof.
+  intros p. unfold pdesc_eqb. rewrite eqb_reflx, text_eqb_refl. cbn [andb].
+  destruct (pd_type p); cbn [opt_eqb]; rewrite ?tyref_eqb_refl;
+    destruct (pd_body p); cbn [opt_eqb]; rewrite ?Nat.eqb_refl;
+    destruct (pd_origin p) as [[]|]; reflexivity.
+Qed.
+
+Lemma remove_first_occ : forall i k l, In k l -> pds_occ i (remove_first k l) + pd_occ i k = pds_occ i l.
+Proof.
+  intros i k l. induction l as [|y l IH]; intro Hin; [contradiction|]. cbn [remove_first].
+  destruct (pdesc_eqb y k) eqn:Ey.
+  - destruct (pdesc_eqb_occ i y k Ey) as (Ho & _). unfold pds_occ. cbn [map]. rewrite list_sum_cons. lia.
+  - destruct Hin as [-> | Hin]; [rewrite pdesc_eqb_refl in Ey; discriminate|].
+    specialize (IH Hin). unfold pds_occ in *. cbn [map]. rewrite !list_sum_cons. lia.
+Qed.
+
+Lemma remove_first_mem : forall k p l, In p l -> In p (remove_first k l) \/ pdesc_eqb p k = true.
+Proof.
+  intros k p l. induction l as [|y l IH]; intro Hin; [contradiction|]. cbn [remove_first].
+  destruct (pdesc_eqb y k) eqn:Ey.
+  - destruct Hin as [-> | Hin]; [right; exact Ey | left; exact Hin].
+  - destruct Hin as [-> | Hin]; [left; left; reflexivity|].
+    destruct (IH Hin) as [H | H]; [left; right; exact H | right; exact H].
+Qed.
+
+Lemma last_kw_in : forall l acc k,
+  fold_left (fun acc p => if is_kw_name p then Some p else acc) l acc = Some k -> In k l \/ acc = Some k.
+Proof.
+  induction l as [|p l IH]; intros acc k H; cbn [fold_left] in H; [right; exact H|].
+  destruct (IH _ _ H) as [H1 | H1]; [left; right; exact H1|].
+  destruct (is_kw_name p); [left; left; congruence | right; exact H1].
+Qed.
+
+(* dict operations and occurrences *)
+Lemma dict_set_values_le : forall i (k : pname) (v : pdesc) d,
+  pds_occ i (values (dict_set k v d)) <= pds_occ i (values d) + pd_occ i v.
+Proof.
+  intros i k v d. induction d as [|[k' v'] d IH]; cbn [dict_set values map].
+  - unfold pds_occ, values. cbn [map snd]. rewrite ?list_sum_cons, ?list_sum_nil. lia.
+  - destruct (text_eqb (pn_text k') (pn_text k)); unfold pds_occ, values in *; cbn [map snd]; rewrite ?list_sum_cons, ?list_sum_nil; lia.
+Qed.
+
+Lemma params_dict_le_gen : forall i ds d,
+  pds_occ i (values (fold_left (fun d p => dict_set (pd_name p) p d) ds d)) <= pds_occ i (values d) + pds_occ i ds.
+Proof.
+  intros i ds. induction ds as [|p ds IH]; intro d; cbn [fold_left].
+  - unfold pds_occ at 3. cbn [map]. rewrite list_sum_nil. lia.
+  - specialize (IH (dict_set (pd_name p) p d)). pose proof (dict_set_values_le i (pd_name p) p d) as H.
+    unfold pds_occ at 3. cbn [map]. rewrite list_sum_cons. fold (pds_occ i ds). lia.
+Qed.
+
+Lemma dict_pop_occ : forall i k (d : list (pname * pdesc)) v d',
+  dict_pop k d = Some (v, d') -> pds_occ i (values d) = pd_occ i v + pds_occ i (values d').
+Proof.
+  intros i k d. induction d as [|[k0 v0] d IH]; intros v d' H; cbn [dict_pop] in H; [discriminate|].
+  destruct (text_eqb (pn_text k0) k).
+  - inversion H; subst. unfold pds_occ, values. cbn [map snd]. rewrite list_sum_cons. reflexivity.
+  - destruct (dict_pop k d) as [[v1 r]|] eqn:Ep; [|discriminate]. inversion H; subst.
+    specialize (IH _ _ eq_refl). unfold pds_occ, values in *. cbn [map snd]. rewrite !list_sum_cons. lia.
+Qed.
+
+Lemma dict_pop_mem : forall k (d : list (pname * pdesc)) v d' key x,
+  dict_pop k d = Some (v, d') -> In (key, x) d -> x = v \/ In (key, x) d'.
+Proof.
+  intros k d. induction d as [|[k0 v0] d IH]; intros v d' key x H Hin; cbn [dict_pop] in H; [discriminate|].
+  destruct (text_eqb (pn_text k0) k).
+  - inversion H; subst. destruct Hin as [Hin | Hin]; [inversion Hin; left; reflexivity | right; exact Hin].
+  - destruct (dict_pop k d) as [[v1 r]|] eqn:Ep; [|discriminate]. inversion H; subst.
+    destruct Hin as [Hin | Hin]; [right; left; exact Hin|].
+    destruct (IH _ _ _ _ eq_refl Hin) as [H1 | H1]; [left; exact H1 | right; right; exact H1].
+Qed.
+
+Lemma dict_pop_none : forall k (d : list (pname * pdesc)), dict_pop k d = None -> forall key x, In (key, x) d -> pn_text key <> k.
+Proof.
+  intros k d. induction d as [|[k0 v0] d IH]; intros H key x Hin; [contradiction|]. cbn [dict_pop] in H.
+  destruct (text_eqb (pn_text k0) k) eqn:Ek; [discriminate|].
+  destruct (dict_pop k d) as [[v1 r]|] eqn:Ep; [discriminate|].
+  destruct Hin as [Hin | Hin].
+  - inversion Hin; subst. intro Heq. subst k. rewrite text_eqb_refl in Ek. discriminate.
+  - apply (IH eq_refl _ _ Hin).
+Qed.
+
+Section Resolve.
+  Variable E : env.
+
+  Lemma rt_loop_le : forall i types idx params any new lft ai,
+    rt_loop E idx types params any = (new, lft, ai) ->
+    pds_occ i new + pds_occ i (values lft) <= pds_occ i (values params) + types_occ i types.
+  Proof.
+    intros i types. induction types as [|[name pty] types IH]; intros idx params any new lft ai H; cbn [rt_loop] in H.
+    - inversion H; subst. unfold pds_occ at 1. cbn [map]. rewrite list_sum_nil. lia.
+    - unfold types_occ. cbn [map]. rewrite list_sum_cons. fold (types_occ i types).
+      destruct (dict_pop (pn_text name) params) as [[p params']|] eqn:Ep.
+      + destruct (rt_loop E (S idx) types params' any) as [[new1 lft1] ai1] eqn:Er. inversion H; subst.
+        specialize (IH _ _ _ _ _ _ Er). rewrite (dict_pop_occ i _ _ _ _ Ep).
+        unfold pds_occ at 1. cbn [map]. rewrite list_sum_cons. fold (pds_occ i new1).
+        unfold pd_occ at 1. cbn [pd_body pd_type]. unfold pd_occ, ty_occ. cbn [snd].
+        destruct (pd_type p) as [[]|]; cbn [type_occ]; lia.
+      + destruct (Nat.eqb idx 0 && strip_first E name).
+        * specialize (IH _ _ _ _ _ _ H). lia.
+        * destruct (rt_loop E (S idx) types params _) as [[new1 lft1] ai1] eqn:Er. inversion H; subst.
+          specialize (IH _ _ _ _ _ _ Er).
+          unfold pds_occ at 1. cbn [map]. rewrite list_sum_cons. fold (pds_occ i new1).
+          unfold pd_occ at 1. cbn [pd_body pd_type body_occ]. unfold ty_occ. cbn [snd]. lia.
+  Qed.
+
+  Lemma rt_loop_ai_mono : forall types idx params new lft ai,
+    rt_loop E idx types params true = (new, lft, ai) -> ai = true.
+  Proof.
+    induction types as [|[name pty] types IH]; intros idx params new lft ai H; cbn [rt_loop] in H.
+    - inversion H. reflexivity.
+    - destruct (dict_pop (pn_text name) params) as [[p params']|].
+      + destruct (rt_loop E (S idx) types params' true) as [[new1 lft1] ai1] eqn:Er. inversion H; subst. eapply IH. exact Er.
+      + destruct (Nat.eqb idx 0 && strip_first E name); [eapply IH; exact H|].
+        cbn [orb] in H. destruct (rt_loop E (S idx) types params true) as [[new1 lft1] ai1] eqn:Er.
+        inversion H; subst. eapply IH. exact Er.
+  Qed.
+
+  (* every value of the params dict ends up in the new list (popped, same body) or among the leftovers *)
+  Lemma rt_loop_params : forall types idx params any new lft ai,
+    rt_loop E idx types params any = (new, lft, ai) ->
+    forall key v, In (key, v) params ->
+      (exists p', In p' new /\ pd_body p' = pd_body v) \/ In (key, v) lft.
+  Proof.
+    induction types as [|[name pty] types IH]; intros idx params any new lft ai H key v Hin; cbn [rt_loop] in H.
+    - inversion H; subst. right. exact Hin.
+    - destruct (dict_pop (pn_text name) params) as [[p params']|] eqn:Ep.
+      + destruct (rt_loop E (S idx) types params' any) as [[new1 lft1] ai1] eqn:Er. inversion H; subst.
+        destruct (dict_pop_mem _ _ _ _ _ _ Ep Hin) as [-> | Hin'].
+        * left. eexists. split; [left; reflexivity | reflexivity].
+        * destruct (IH _ _ _ _ _ _ Er _ _ Hin') as [(p' & H1 & H2) | H1]; [left; exists p'; split; [right; exact H1 | exact H2] | right; exact H1].
+      + destruct (Nat.eqb idx 0 && strip_first E name).
+        * eapply IH; eassumption.
+        * destruct (rt_loop E (S idx) types params _) as [[new1 lft1] ai1] eqn:Er. inversion H; subst.
+          destruct (IH _ _ _ _ _ _ Er _ _ Hin) as [(p' & H1 & H2) | H1]; [left; exists p'; split; [right; exact H1 | exact H2] | right; exact H1].
+  Qed.
+
+  (* every typed entry of self.types ends up as the type of a row, except an undocumented leading self/cls *)
+  Lemma rt_loop_types : forall types idx params any new lft ai,
+    rt_loop E idx types params any = (new, lft, ai) ->
+    (params <> [] -> any = true) ->
+    forall name ty o, In (name, Some (ty, o)) types ->
+      (exists p', In p' new /\ pd_type p' = Some ty /\ pd_origin p' = Some o /\ ai = true)
+      \/ (idx = 0 /\ strip_first E name = true /\ dict_pop (pn_text name) params = None).
+  Proof.
+    induction types as [|[nm pty] types IH]; intros idx params any new lft ai H Hany name ty o Hin; [contradiction|].
+    cbn [rt_loop] in H.
+    destruct (dict_pop (pn_text nm) params) as [[p params']|] eqn:Ep.
+    - destruct (rt_loop E (S idx) types params' any) as [[new1 lft1] ai1] eqn:Er. inversion H; subst.
+      assert (Hany1 : any = true).
+      { apply Hany. intro Hnil. subst params. discriminate. }
+      destruct Hin as [Hin | Hin].
+      + inversion Hin; subst. left. eexists. split; [left; reflexivity|]. cbn [pd_type pd_origin option_map fst snd].
+        repeat split. eapply rt_loop_ai_mono. exact Er.
+      + destruct (IH _ _ _ _ _ _ Er (fun _ => Hany1) _ _ _ Hin) as [(p' & H1 & H2 & H3 & H4) | (H1 & _)]; [|discriminate].
+        left. exists p'. repeat split; try assumption. right. exact H1.
+    - destruct (Nat.eqb idx 0 && strip_first E nm) eqn:Es.
+      + destruct Hin as [Hin | Hin].
+        * inversion Hin; subst. right. apply andb_true_iff in Es. destruct Es as [Es1 Es2]. apply Nat.eqb_eq in Es1.
+          repeat split; assumption.
+        * destruct (IH _ _ _ _ _ _ H Hany _ _ _ Hin) as [H1 | (H1 & _)]; [left; exact H1 | discriminate].
+      + destruct (rt_loop E (S idx) types params _) as [[new1 lft1] ai1] eqn:Er. inversion H; subst.
+        destruct Hin as [Hin | Hin].
+        * inversion Hin; subst. left. eexists. split; [left; reflexivity|]. cbn [pd_type pd_origin option_map fst snd].
+          repeat split. rewrite orb_true_r in Er. eapply rt_loop_ai_mono. exact Er.
+        * assert (Hany' : params <> [] -> any || match pty with Some _ => true | None => false end = true).
+          { intro Hne. rewrite (Hany Hne). reflexivity. }
+          destruct (IH _ _ _ _ _ _ Er Hany' _ _ _ Hin) as [(p' & H1 & H2 & H3 & H4) | (H1 & _)]; [|discriminate].
+          left. exists p'. repeat split; try assumption. right. exact H1.
+  Qed.
+
+  (* params = {param.name: param ...}: the last description of a name is a value of the dict *)
+  Lemma fold_dict_keep : forall (l2 : list pdesc) d k' (p : pdesc),
+    In (k', p) d -> Forall (fun q => pn_text (pd_name q) <> pn_text k') l2 ->
+    In (k', p) (fold_left (fun d p => dict_set (pd_name p) p d) l2 d).
+  Proof.
+    induction l2 as [|q l2 IH]; intros d k' p Hin Hf; cbn [fold_left]; [exact Hin|].
+    inversion Hf; subst. apply IH; [|assumption]. apply dict_set_keep; [exact Hin|]. intro Heq. congruence.
+  Qed.
+
+  Lemma params_dict_last : forall n i ds, in_pdescs n i ds ->
+    exists k' p, In (k', p) (params_dict ds) /\ pd_body p = Some i.
+  Proof.
+    intros n i ds (l1 & p & l2 & Hds & Hn & Hb & _ & Hf). subst ds. unfold params_dict.
+    rewrite fold_left_app. cbn [fold_left].
+    destruct (dict_set_in (pd_name p) p (fold_left (fun d p => dict_set (pd_name p) p d) l1 [])) as (k' & H1 & H2).
+    exists k', p. split; [|exact Hb]. apply fold_dict_keep; [exact H1|].
+    rewrite H2, Hn. exact Hf.
+  Qed.
+
+  Lemma fold_dict_has_key : forall (l : list pdesc) d n,
+    has_key n d = true \/ existsb (fun q => text_eqb (pn_text (pd_name q)) n) l = true ->
+    has_key n (fold_left (fun d p => dict_set (pd_name p) p d) l d) = true.
+  Proof.
+    assert (HS : forall (k : pname) (v : pdesc) d n, has_key n d = true \/ text_eqb (pn_text k) n = true -> has_key n (dict_set k v d) = true).
+    { intros k v d n. induction d as [|[k0 v0] d IH]; intros [H | H]; cbn [dict_set].
+      - discriminate.
+      - unfold has_key. cbn. rewrite H. reflexivity.
+      - destruct (text_eqb (pn_text k0) (pn_text k)); unfold has_key in *; cbn [existsb fst] in *.
+        + exact H.
+        + apply orb_true_iff in H. destruct H as [H | H]; [rewrite H; reflexivity|].
+          rewrite (IH (or_introl H)). apply orb_true_r.
+      - destruct (text_eqb (pn_text k0) (pn_text k)) eqn:Ek; unfold has_key in *; cbn [existsb fst] in *.
+        + apply text_eqb_eq in Ek. rewrite Ek, H. reflexivity.
+        + rewrite (IH (or_intror H)). apply orb_true_r. }
+    induction l as [|q l IH]; intros d n [H | H]; cbn [fold_left].
+    - exact H.
+    - discriminate.
+    - apply IH. left. apply HS. left. exact H.
+    - cbn [existsb] in H. apply orb_true_iff in H. destruct H as [H | H].
+      + apply IH. left. apply HS. right. exact H.
+      + apply IH. right. exact H.
+  Qed.
+
+  Lemma has_key_pop : forall n (d : list (pname * pdesc)), has_key n d = true -> dict_pop n d <> None.
+  Proof.
+    intros n d. induction d as [|[k0 v0] d IH]; intro H; [discriminate|]. unfold has_key in H. cbn [existsb fst] in H.
+    cbn [dict_pop]. destruct (text_eqb (pn_text k0) n); [discriminate|]. cbn [orb] in H.
+    destruct (dict_pop n d) as [[v r]|] eqn:Ep; [discriminate|]. exfalso. apply (IH H). reflexivity.
+  Qed.
+
+  (* ---- resolve_types as a whole --------------------------------------------------------------------------- *)
+  Lemma resolve_types_spec : forall st, exists descs,
+    resolve_types E st = set_pdescs descs st /\
+    (forall i, pds_occ i descs <= pds_occ i (st_pdescs st) + types_occ i (st_types st)) /\
+    (forall n i, in_pdescs n i (st_pdescs st) -> exists p, In p descs /\ pd_body p = Some i) /\
+    (forall n i, in_types n i (st_types st) ->
+                 (strip_first E {| pn_text := n; pn_star := SNone |} = true -> pdesc_named n st = true) ->
+                 exists p, In p descs /\ pd_type p = Some (TyField i) /\ pd_origin p = Some FromDoc).
+  Proof.
+    intros st. unfold resolve_types.
+    set (params := params_dict (st_pdescs st)).
+    set (any0 := match params with [] => false | _ => true end).
+    destruct (rt_loop E 0 (st_types st) params any0) as [[new lft] ai] eqn:Er.
+    set (new' := new ++ map snd lft).
+    set (descs := if ai then new' else st_pdescs st).
+    set (kwargs := fold_left (fun acc p => if is_kw_name p then Some p else acc) descs None).
+    set (has_keywords := existsb (fun p => negb (is_kw_name p) && pd_kw p) descs).
+    pose (final := match kwargs with
+                   | Some k => let d := remove_first k descs in if negb has_keywords || pdesc_documented k then d ++ [k] else d
+                   | None => descs end).
+    exists final. split; [reflexivity|].
+    assert (Hany0 : params <> [] -> any0 = true).
+    { intro Hne. subst any0. destruct params; [contradiction | reflexivity]. }
+    (* facts about descs *)
+    assert (U0 : forall i, pds_occ i descs <= pds_occ i (st_pdescs st) + types_occ i (st_types st)).
+    { intro i. subst descs. destruct ai; [|lia]. subst new'. rewrite pds_occ_app.
+      pose proof (rt_loop_le i _ _ _ _ _ _ _ Er) as H1. fold (values lft).
+      pose proof (params_dict_le_gen i (st_pdescs st) []) as H2. fold (params_dict (st_pdescs st)) in H2. fold params in H2.
+      unfold pds_occ at 2 in H2. cbn [values map] in H2. rewrite list_sum_nil in H2. lia. }
+    assert (P0 : forall n i, in_pdescs n i (st_pdescs st) -> exists p, In p descs /\ pd_body p = Some i /\ ai = true).
+    { intros n i Hin. destruct (params_dict_last n i _ Hin) as (k' & p & H1 & H2). fold params in H1.
+      assert (Hai : ai = true).
+      { assert (any0 = true) by (apply Hany0; intro Hn; rewrite Hn in H1; contradiction).
+        subst any0. match goal with Hx : _ = true |- _ => rewrite Hx in Er end. eapply rt_loop_ai_mono. exact Er. }
+      subst descs. rewrite Hai. subst new'.
+      destruct (rt_loop_params _ _ _ _ _ _ _ Er _ _ H1) as [(p' & H3 & H4) | H3].
+      - exists p'. split; [apply in_or_app; left; exact H3 | split; [congruence | reflexivity]].
+      - exists p. split; [apply in_or_app; right; apply in_map_iff; exists (k', p); split; [reflexivity | exact H3] | split; [exact H2 | reflexivity]]. }
+    assert (T0 : forall n i, in_types n i (st_types st) ->
+                 (strip_first E {| pn_text := n; pn_star := SNone |} = true -> pdesc_named n st = true) ->
+                 exists p, In p descs /\ pd_type p = Some (TyField i) /\ pd_origin p = Some FromDoc).
+    { intros n i (k & H1 & H2) Hs.
+      destruct (rt_loop_types _ _ _ _ _ _ _ Er Hany0 _ _ _ H1) as [(p' & H3 & H4 & H5 & H6) | (_ & H3 & H4)].
+      - exists p'. subst descs. rewrite H6. subst new'. split; [apply in_or_app; left; exact H3 | split; assumption].
+      - exfalso. assert (Hs' : strip_first E {| pn_text := n; pn_star := SNone |} = true).
+        { unfold strip_first in *. cbn [pn_text]. rewrite <- H2. exact H3. }
+        specialize (Hs Hs'). apply (has_key_pop (pn_text k) params); [|exact H4].
+        subst params. unfold params_dict. apply fold_dict_has_key. right. rewrite H2. exact Hs. }
+    (* the **kwargs shuffle keeps every documented row *)
+    assert (K0 : forall final0,
+               final0 = match kwargs with
+                       | Some k => let d := remove_first k descs in if negb has_keywords || pdesc_documented k then d ++ [k] else d
+                       | None => descs end ->
+               (forall i, pds_occ i final0 <= pds_occ i descs) /\
+               (forall p, In p descs -> pdesc_documented p = true ->
+                          exists p', In p' final0 /\ pd_body p' = pd_body p /\ pd_origin p' = pd_origin p /\
+                                     (forall i, type_occ i (pd_type p') = type_occ i (pd_type p)))).
+    { clear final. intros final Hfinal. destruct kwargs as [k|] eqn:Ek.
+      - assert (Hk : In k descs).
+        { subst kwargs. destruct (last_kw_in _ _ _ Ek) as [H | H]; [exact H | discriminate]. }
+        cbn zeta in Hfinal. split.
+        + intro i. pose proof (remove_first_occ i k descs Hk) as H. subst final.
+          destruct (negb has_keywords || pdesc_documented k); [rewrite pds_occ_app, pds_occ_one|]; lia.
+        + intros p Hp Hd. destruct (remove_first_mem k p descs Hp) as [H | H].
+          * exists p. subst final. split; [|repeat split].
+            destruct (negb has_keywords || pdesc_documented k); [apply in_or_app; left|]; exact H.
+          * assert (Hx := pdesc_eqb_occ 0 p k H). destruct Hx as (_ & Hdoc & Hb & Ho & _).
+            exists k. subst final. rewrite <- Hdoc, Hd, orb_true_r. split; [apply in_or_app; right; left; reflexivity|].
+            repeat split; try congruence. intro i. destruct (pdesc_eqb_occ i p k H) as (_ & _ & _ & _ & Ht). congruence.
+      - subst final. split; [intro; lia|]. intros p Hp _. exists p. repeat split. exact Hp. }
+    destruct (K0 final eq_refl) as [K1 K2]. clearbody final.
+    split; [|split].
+    - intro i. specialize (K1 i). specialize (U0 i). lia.
+    - intros n i Hin. destruct (P0 n i Hin) as (p & H1 & H2 & _).
+      destruct (K2 p H1) as (p' & H3 & H4 & _); [unfold pdesc_documented; rewrite H2; reflexivity|].
+      exists p'. split; [exact H3 | congruence].
+    - intros n i Hin Hs. destruct (T0 n i Hin Hs) as (p & H1 & H2 & H3).
+      destruct (K2 p H1) as (p' & H4 & H5 & H6 & H7); [unfold pdesc_documented; rewrite H3; destruct (pd_body p); reflexivity|].
+      exists p'. split; [exact H4|]. split; [|congruence].
+      specialize (H7 i). rewrite H2 in H7. cbn [type_occ] in H7. rewrite Nat.eqb_refl in H7.
+      destruct (pd_type p') as [[]|]; cbn [type_occ] in H7; try discriminate.
+      destruct (Nat.eqb_spec i0 i); [subst; reflexivity | discriminate].
+  Qed.
+End Resolve.
+
+(* ======================================================================================================== *)
+(* the rendered table                                                                                         *)
+(* ======================================================================================================== *)
+Lemma format_occ_resolved : forall st descs i (P : text -> bool),
+  secs_occ P i (format (set_pdescs descs st)) =
+    if_in P (T "Parameters") (if existsb pdesc_documented descs then pds_occ i descs else 0) +
+    if_in P (T "Returns") (if match st_ret st with Some r => existsb pdesc_documented descs || ret_documented r | None => false end
+                           then ret_occ i st else 0) +
+    if_in P (T "Yields") (yld_occ i st) +
+    if_in P (T "Raises") (raises_occ i st) +
+    if_in P (T "Warns") (warns_occ i st) +
+    if_in P (author_label st) (idx_occ i (st_authors st)) +
+    if_in P (T "See Also") (idx_occ i (st_seealsos st)) +
+    if_in P (T "Present Since") (idx_occ i (st_sinces st)) +
+    if_in P (note_label st) (idx_occ i (st_notes st)) +
+    unknowns_occ (fun tag => P (T "Unknown Field: " ++ tag)) i (st_unknowns st).
+Proof. intros. rewrite format_occurrences. reflexivity. Qed.
+
+Lemma idx_occ_in : forall i l, In i l -> 1 <= idx_occ i l.
+Proof.
+  intros i l. induction l as [|x l IH]; intro H; [contradiction|]. unfold idx_occ in *. cbn [map]. rewrite list_sum_cons.
+  destruct H as [-> | H]; [rewrite Nat.eqb_refl; lia | specialize (IH H); lia].
+Qed.
+
+Lemma pds_occ_in_body : forall i p l, In p l -> pd_body p = Some i -> 1 <= pds_occ i l.
+Proof.
+  intros i p l. induction l as [|x l IH]; intros H Hb; [contradiction|]. unfold pds_occ in *. cbn [map]. rewrite list_sum_cons.
+  destruct H as [-> | H]; [|specialize (IH H Hb); lia]. unfold pd_occ. rewrite Hb. cbn [body_occ]. rewrite Nat.eqb_refl. lia.
+Qed.
+
+Lemma pds_occ_in_type : forall i p l, In p l -> pd_type p = Some (TyField i) -> 1 <= pds_occ i l.
+Proof.
+  intros i p l. induction l as [|x l IH]; intros H Hb; [contradiction|]. unfold pds_occ in *. cbn [map]. rewrite list_sum_cons.
+  destruct H as [-> | H]; [|specialize (IH H Hb); lia]. unfold pd_occ. rewrite Hb. cbn [type_occ]. rewrite Nat.eqb_refl. lia.
+Qed.
+
+Lemma documented_exists : forall p l, In p l -> pdesc_documented p = true -> existsb pdesc_documented l = true.
+Proof. intros p l H Hd. apply existsb_exists. exists p. split; assumption. Qed.
+
+Lemma types_occ_in : forall n i tys, in_types n i tys -> 1 <= types_occ i tys.
+Proof.
+  intros n i tys (k & H & _). induction tys as [|x l IH]; [contradiction|]. unfold types_occ in *. cbn [map]. rewrite list_sum_cons.
+  destruct H as [-> | H]; [|specialize (IH H); lia]. unfold ty_occ. cbn. rewrite Nat.eqb_refl. lia.
+Qed.
+
+Lemma in_pdescs_occ : forall n i ds, in_pdescs n i ds -> 1 <= pds_occ i ds.
+Proof.
+  intros n i ds (l1 & p & l2 & -> & _ & Hb & _). apply (pds_occ_in_body i p); [apply in_or_app; right; left; reflexivity | exact Hb].
+Qed.
+
+Lemma raises_occ_in : forall i t st, In (t, i) (st_raises st) -> 1 <= raises_occ i st.
+Proof.
+  intros i t st. unfold raises_occ. induction (st_raises st) as [|x l IH]; intro H; [contradiction|]. cbn [map]. rewrite list_sum_cons.
+  destruct H as [-> | H]; [cbn [snd body_occ]; rewrite Nat.eqb_refl; lia | specialize (IH H); lia].
+Qed.
+
+Lemma warns_occ_in : forall i t st, In (t, i) (st_warns st) -> 1 <= warns_occ i st.
+Proof.
+  intros i t st. unfold warns_occ. induction (st_warns st) as [|x l IH]; intro H; [contradiction|]. cbn [map]. rewrite list_sum_cons.
+  destruct H as [-> | H]; [cbn [snd body_occ]; rewrite Nat.eqb_refl; lia | specialize (IH H); lia].
+Qed.
+
+Lemma unknowns_occ_le : forall p i d, unknowns_occ p i d <= unknowns_occ (fun _ => true) i d.
+Proof.
+  intros p i d. unfold unknowns_occ. induction d as [|x d IH]; [cbn [map]; lia|]. cbn [map]. rewrite !list_sum_cons. destruct (p (fst x)); lia.
+Qed.
+
+Lemma unknowns_occ_in : forall (p : text -> bool) i d tag l a,
+  In (tag, l) d -> In (a, i) l -> p tag = true -> 1 <= unknowns_occ p i d.
+Proof.
+  intros p i d tag l a H Ha Hp. unfold unknowns_occ. induction d as [|x d IH]; [contradiction|]. cbn [map]. rewrite list_sum_cons.
+  destruct H as [-> | H]; [|specialize (IH H); lia]. cbn [fst snd]. rewrite Hp.
+  assert (1 <= unk_list_occ i l); [|lia]. unfold unk_list_occ. apply idx_occ_in. apply in_map_iff. exists (a, i). split; [reflexivity | exact Ha].
+Qed.
+
+Lemma author_label_cases : forall st, author_label st = T "Author" \/ author_label st = T "Authors".
+Proof. intros st. unfold author_label. destruct (st_authors st) as [|? [|? ?]]; auto. Qed.
+Lemma note_label_cases : forall st, note_label st = T "Note" \/ note_label st = T "Notes".
+Proof. intros st. unfold note_label. destruct (st_notes st) as [|? [|? ?]]; auto. Qed.
+
+Lemma strip_first_spec : forall E n, strip_first E {| pn_text := n; pn_star := SNone |} = true ->
+  exists s, stripped_first E = Some s /\ text_eqb s n = true.
+Proof.
+  intros E n. unfold strip_first, stripped_first. cbn [pn_text].
+  destruct (e_obj E) as [[]| | |]; try discriminate; intro H.
+  - exists (T "self"). split; [reflexivity|]. rewrite text_eqb_sym. exact H.
+  - exists (T "cls"). split; [reflexivity|]. rewrite text_eqb_sym. exact H.
+Qed.
+
+Section Final.
+  Variable E : env.
+  Hypothesis Hfun : is_function_obj E = true.
+
+  (* a @param/@arg/@keyword with an argument always leaves a description of that name, for good *)
+  Lemma pdesc_named_mono : forall n k g st, pdesc_named n st = true -> pdesc_named n (handle E k g st) = true.
+  Proof.
+    intros n k g st H. pose proof (handle_effect E k g st) as HE. unfold pdesc_named in *.
+    destruct (effect E k g st) eqn:Ee; cbn [apply_upd] in HE;
+      destruct HE as (_ & HE & _); rewrite HE; st_simpl; try exact H.
+    unfold effect in Ee.
+    destruct (lookup_handler (f_tag g) handler_table) as [[]|]; try discriminate;
+      try (destruct (e_obj E); try discriminate);
+      try (destruct (fst (handle_param_name E k g st)); try discriminate);
+      try (destruct (f_arg g); discriminate);
+      inversion Ee; subst; rewrite existsb_app, H; reflexivity.
+  Qed.
+
+  Lemma pdesc_named_all : forall fs n k st, pdesc_named n st = true -> pdesc_named n (handle_all E k fs st) = true.
+  Proof. induction fs as [|g fs IH]; intros n k st H; cbn [handle_all]; [exact H | apply IH; apply pdesc_named_mono; exact H]. Qed.
+
+  Lemma paramish_named : forall k g st n,
+    is_tag param_tags g = true -> arg_name g = Some n -> pdesc_named n (handle E k g st) = true.
+  Proof.
+    intros k g st n Ht Ha. pose proof (handle_effect E k g st) as HE. unfold effect in HE.
+    assert (Hname : exists n', fst (handle_param_name E k g st) = Some n' /\ pn_text n' = n).
+    { unfold arg_name in Ha. destruct (f_arg g) as [a|] eqn:Fa; [|discriminate].
+      destruct (fst (handle_param_name E k g st)) as [n'|] eqn:Hn.
+      - exists n'. split; [reflexivity|]. pose proof (param_name_text E k g st n' Hn) as H. unfold arg_name in H.
+        rewrite Fa in H. cbn in *. congruence.
+      - destruct (param_name_none E k g st Hn) as [H _]. congruence. }
+    destruct Hname as (n' & Hn1 & Hn2).
+    destruct (lookup_handler (f_tag g) handler_table) as [h|] eqn:Hh.
+    - destruct (known_handler_facts _ _ Hh) as (_ & _ & _ & Fp & _).
+      change (tag_is param_tags (f_tag g)) with (is_tag param_tags g) in Fp. rewrite Ht in Fp.
+      destruct h; try discriminate Fp; rewrite Hn1 in HE; cbn [apply_upd] in HE; destruct HE as (_ & HE & _);
+        unfold pdesc_named; rewrite HE; st_simpl; rewrite existsb_app; cbn [existsb new_pdesc pd_name];
+        rewrite Hn2, text_eqb_refl; rewrite orb_true_l, orb_true_r; reflexivity.
+    - destruct (unknown_handler_facts _ Hh) as (_ & _ & _ & Fp & _).
+      change (tag_is param_tags (f_tag g)) with (is_tag param_tags g) in Fp. congruence.
+  Qed.
+
+  Lemma guard_e_named : forall fs i f n,
+    nth_error fs i = Some f -> silently_lost E fs i f = false ->
+    is_tag ["type"%string] f = true -> arg_name f = Some n ->
+    strip_first E {| pn_text := n; pn_star := SNone |} = true ->
+    pdesc_named n (handle_all E 0 fs (init_state E)) = true.
+  Proof.
+    intros fs i f n Hnth Hg Ht Ha Hs. unfold silently_lost in Hg.
+    apply orb_false_iff in Hg. destruct Hg as [_ Hg]. rewrite Ht in Hg. cbn [andb] in Hg.
+    destruct (strip_first_spec E n Hs) as (s & Hs1 & Hs2). rewrite Hs1, Ha, Hs2 in Hg. cbn [andb] in Hg.
+    apply negb_false_iff in Hg. apply existsb_exists in Hg. destruct Hg as (g & Hin & Hg).
+    apply andb_true_iff in Hg. destruct Hg as [Hg1 Hg2].
+    assert (Hag : arg_name g = Some n).
+    { unfold same_name in Hg2. rewrite Ha in Hg2. destruct (arg_name g) as [b|]; [|discriminate].
+      apply text_eqb_eq in Hg2. congruence. }
+    apply in_split in Hin. destruct Hin as (l1 & l2 & ->).
+    rewrite handle_all_app. cbn [handle_all]. apply pdesc_named_all. apply paramish_named; assumption.
+  Qed.
+End Final.
+
+(* ======================================================================================================== *)
+(* C09_fields_routed                                                                                          *)
+(* ======================================================================================================== *)
+Lemma if_in_zero : forall P l, if_in P l 0 = 0.
+Proof. intros. unfold if_in. destruct (P l); reflexivity. Qed.
+
+Ltac label_compute :=
+  repeat match goal with
+         | |- context [under (labels_of ?e) (T ?s)] =>
+           let b := eval vm_compute in (under (labels_of e) (T s)) in
+           change (under (labels_of e) (T s)) with b
+         end.
+
+Ltac settle A := first [replace A with 1 by lia | replace A with 0 by lia].
+
+Ltac settle_all :=
+  repeat match goal with
+         | |- context [pds_occ ?i ?d] => progress (settle (pds_occ i d))
+         | |- context [ret_occ ?i ?s] => progress (settle (ret_occ i s))
+         | |- context [yld_occ ?i ?s] => progress (settle (yld_occ i s))
+         | |- context [raises_occ ?i ?s] => progress (settle (raises_occ i s))
+         | |- context [warns_occ ?i ?s] => progress (settle (warns_occ i s))
+         | |- context [idx_occ ?i ?l] => progress (settle (idx_occ i l))
+         | |- context [unknowns_occ ?p ?i ?d] => progress (settle (unknowns_occ p i d))
+         end.
+
+Ltac finish_labels :=
+  rewrite ?if_same, ?if_in_zero; unfold if_in; label_compute; rewrite ?if_same; split; reflexivity.
+
+Section Routed.
+  Variable E : env.
+  Hypothesis Hfun : is_function_obj E = true.
+
+  Lemma render_function : forall fs,
+    render E fs = (format (resolve_types E (handle_all E 0 fs (init_state E))),
+                   st_reports (resolve_types E (handle_all E 0 fs (init_state E))),
+                   st_attr_type (resolve_types E (handle_all E 0 fs (init_state E)))).
+  Proof.
+    intros fs. unfold render, final_state. unfold is_function_obj in Hfun. destruct (e_obj E); try discriminate. reflexivity.
+  Qed.
+
+  Theorem fields_routed : forall fs i f,
+    no_silent_class E fs -> nth_error fs i = Some f ->
+    routed i f (fst (fst (render E fs))) (snd (fst (render E fs))).
+  Proof.
+    intros fs i f Hguard Hnth. rewrite render_function. cbn [fst snd].
+    pose proof (Hguard i f Hnth) as Hg.
+    destruct (nth_error_split fs i Hnth) as (pre & post & Hfs & Hlen).
+    set (st := handle_all E 0 fs (init_state E)).
+    destruct (resolve_types_spec E st) as (descs & Hres & HU & HP & HT). rewrite Hres.
+    rewrite <- Hlen in Hg.
+    pose proof (handled_placed E fs pre f post Hfun Hfs Hg) as Hplaced. cbv zeta in Hplaced. fold st in Hplaced.
+    rewrite Hlen in Hplaced, Hg.
+    destruct Hplaced as [Hp | Hr]; [|right; exact Hr].
+    left.
+    pose proof (final_total_le_1 E fs i) as Htot. fold st in Htot.
+    specialize (HU i).
+    unfold placed in Hp.
+    destruct (lookup_handler (f_tag f) handler_table) as [h|] eqn:Hh.
+    - destruct (known_handler_facts _ _ Hh) as (Fe & _ & Ft & _ & _).
+      exists (match spec_entry h with Some e => e | None => EnParameters end).
+      unfold shown_once_under, occurrences, occurrences_under. fold (under (labels_of (match spec_entry h with Some e => e | None => EnParameters end))).
+      rewrite !format_occ_resolved. cbn beta.
+      unfold total, shown_total in Htot.
+      pose proof (unknowns_occ_le (fun tag => under (labels_of (match spec_entry h with Some e => e | None => EnParameters end)) (T "Unknown Field: " ++ tag)) i (st_unknowns st)) as HUk.
+      destruct h; cbn [spec_entry] in *; try contradiction; (split; [exact Fe|]).
+      + (* return *) destruct Hp as (r & Hr1 & Hr2).
+        assert (1 <= ret_occ i st) by (unfold ret_occ; rewrite Hr1, Hr2; cbn [body_occ]; rewrite Nat.eqb_refl; lia).
+        rewrite Hr1. unfold ret_documented. rewrite Hr2, orb_true_r.
+        settle_all. finish_labels.
+      + (* yield *) destruct Hp as (y & Hy1 & Hy2).
+        assert (1 <= yld_occ i st) by (unfold yld_occ; rewrite Hy1, Hy2; cbn [body_occ]; rewrite Nat.eqb_refl; lia).
+        settle_all. finish_labels.
+      + (* rtype *) destruct Hp as (r & Hr1 & Hr2 & Hr3).
+        assert (1 <= ret_occ i st) by (unfold ret_occ; rewrite Hr1, Hr2; cbn [type_occ]; rewrite Nat.eqb_refl; lia).
+        rewrite Hr1. unfold ret_documented. rewrite Hr3. replace (match r_body r with Some _ => true | None => true end) with true by (destruct (r_body r); reflexivity).
+        rewrite orb_true_r. settle_all. finish_labels.
+      + (* ytype *) destruct Hp as (y & Hy1 & Hy2).
+        assert (1 <= yld_occ i st) by (unfold yld_occ; rewrite Hy1, Hy2; cbn [type_occ]; rewrite Nat.eqb_refl; lia).
+        settle_all. finish_labels.
+      + (* type *) destruct Hp as (n & Hn1 & Hn2).
+        pose proof (types_occ_in n i _ Hn2) as Hty.
+        destruct (HT n i Hn2) as (p & Hp1 & Hp2 & Hp3).
+        { intro Hs. apply (guard_e_named E fs i f n Hnth Hg); [exact Ft | exact Hn1 | exact Hs]. }
+        pose proof (pds_occ_in_type i p descs Hp1 Hp2) as Hge.
+        rewrite (documented_exists p descs Hp1) by (unfold pdesc_documented; rewrite Hp3; destruct (pd_body p); reflexivity).
+        settle_all. finish_labels.
+      + (* param *) destruct Hp as (n & Hn1 & Hn2).
+        pose proof (in_pdescs_occ n i _ Hn2) as Hpd.
+        destruct (HP n i Hn2) as (p & Hp1 & Hp2).
+        pose proof (pds_occ_in_body i p descs Hp1 Hp2) as Hge.
+        rewrite (documented_exists p descs Hp1) by (unfold pdesc_documented; rewrite Hp2; reflexivity).
+        settle_all. finish_labels.
+      + (* keyword *) destruct Hp as (n & Hn1 & Hn2).
+        pose proof (in_pdescs_occ n i _ Hn2) as Hpd.
+        destruct (HP n i Hn2) as (p & Hp1 & Hp2).
+        pose proof (pds_occ_in_body i p descs Hp1 Hp2) as Hge.
+        rewrite (documented_exists p descs Hp1) by (unfold pdesc_documented; rewrite Hp2; reflexivity).
+        settle_all. finish_labels.
+      + (* raises *) destruct Hp as (t & Ht'). pose proof (raises_occ_in i t st Ht'). settle_all. finish_labels.
+      + (* warns *) destruct Hp as (t & Ht'). pose proof (warns_occ_in i t st Ht'). settle_all. finish_labels.
+      + (* see *) pose proof (idx_occ_in i _ Hp). settle_all. finish_labels.
+      + (* note *) pose proof (idx_occ_in i _ Hp). settle_all.
+        destruct (note_label_cases st) as [-> | ->]; finish_labels.
+      + (* author *) pose proof (idx_occ_in i _ Hp). settle_all.
+        destruct (author_label_cases st) as [-> | ->]; finish_labels.
+      + (* since *) pose proof (idx_occ_in i _ Hp). settle_all. finish_labels.
+    - (* unknown field *)
+      destruct (unknown_handler_facts _ Hh) as (Fe & _).
+      exists (EnUnknown (f_tag f)). split; [exact Fe|].
+      unfold shown_once_under, occurrences, occurrences_under. fold (under (labels_of (EnUnknown (f_tag f)))).
+      rewrite !format_occ_resolved. cbn beta.
+      unfold total, shown_total in Htot.
+      destruct Hp as (l & a & Hl1 & Hl2).
+      pose proof (unknowns_occ_in (fun _ => true) i _ _ _ _ Hl1 Hl2 eq_refl) as H1.
+      pose proof (unknowns_occ_in (fun tag => under (labels_of (EnUnknown (f_tag f))) (T "Unknown Field: " ++ tag)) i _ _ _ _ Hl1 Hl2) as H2.
+      pose proof (unknowns_occ_le (fun tag => under (labels_of (EnUnknown (f_tag f))) (T "Unknown Field: " ++ tag)) i (st_unknowns st)) as HUk.
+      assert (Hlab : under (labels_of (EnUnknown (f_tag f))) (T "Unknown Field: " ++ f_tag f) = true).
+      { unfold under, labels_of. cbn [existsb]. rewrite text_eqb_refl. reflexivity. }
+      specialize (H2 Hlab).
+      settle_all. rewrite ?if_same, ?if_in_zero. lia.
+  Qed.
+End Routed.
+
+Lemma routed_routedb : forall i f secs reps, routed i f secs reps -> routedb i f secs reps = true.
+Proof.
+  intros i f secs reps [(e & He & H1 & H2) | (r & Hr & Hi)]; unfold routedb.
+  - rewrite He, H1, H2. reflexivity.
+  - apply orb_true_iff. right. apply existsb_exists. exists r. split; [exact Hr | apply Nat.eqb_eq; exact Hi].
+Qed.
+
+(* a @param / @arg whose name already has a description is reported *)
+Lemma dup_param_reported : forall E k f st n,
+  lookup_handler (f_tag f) handler_table = Some HParam ->
+  fst (handle_param_name E k f st) = Some n -> pdesc_named (pn_text n) st = true ->
+  exists r, In r (st_reports (handle E k f st)) /\ rp_field r = k /\ rp_kind r = RAlreadyDoc /\ rp_name r = pn_text n.
+Proof.
+  intros E k f st n Hh Hn Hd. unfold handle. rewrite Hh. unfold handle_param.
+  pose proof (param_name_same E k f st) as HS.
+  destruct (handle_param_name E k f st) as [nm st1]; cbn [fst snd] in *. subst nm.
+  assert (Hd1 : pdesc_named (pn_text n) st1 = true).
+  { unfold pdesc_named in *. destruct HS as (_ & HS & _). rewrite HS. exact Hd. }
+  rewrite Hd1.
+  set (r := {| rp_field := k; rp_kind := RAlreadyDoc; rp_name := pn_text n; rp_variant := 0 |}).
+  exists r. split; [|repeat split].
+  match goal with |- context [if ?c then _ else _] => destruct c end.
+  - match goal with |- In r (st_reports (handle_param_not_found E k n ?s)) =>
+      destruct (param_not_found_same E k n s) as (_ & _ & _ & _ & _ & _ & _ & _ & _ & _ & _ & x & Hx); rewrite Hx end.
+    st_simpl. apply in_or_app. left. apply in_or_app. right. left. reflexivity.
+  - st_simpl. apply in_or_app. right. left. reflexivity.
+Qed.
